@@ -994,6 +994,23 @@ static int profile_run(const char *profile, vh_rng_t *rng, uint64_t idx)
     hostile_fingerprint();
     return 1;
   }
+  if (!strcmp(profile, "hostile-slowcb")) {
+    /* completion callbacks that take a second or two before they start their follow-up requests, answers with
+     * lifetimes of a second or two, the query cache on: what the callback was handed must stay valid until it returns */
+    int i;
+    gen_profile_flags = GP_NO_CANCEL_IN_CB;
+    gen_hostile(rng);
+    app_slow_cb            = 1;
+    app_cfg.qcache_max_ttl = 3600;
+    for (i = 0; i < sim_nsrv; i++) {
+      sim_srv[i].default_ttl = 1 + vh_below(rng, 3);
+    }
+    mon_enable_timer = 0; /* virtual time moving inside a callback is outside what the timer monitors model */
+    run_generic(rng);
+    app_slow_cb = 0;
+    hostile_fingerprint();
+    return 1;
+  }
   if (!strcmp(profile, "cookie")) {
     run_cookie(rng);
     return 1;
